@@ -3,6 +3,7 @@
 
 pub mod agent;
 pub mod c16;
+pub mod deps;
 pub mod pty;
 
 use std::path::PathBuf;
